@@ -59,8 +59,12 @@ def build_harness(name="vh", tags="verif", race=False):
         p = os.path.join(REPO, m, "go.sum")
         if os.path.exists(p):
             sums.update(open(p).read().splitlines())
-    with open(os.path.join(HARNESS, "go.sum"), "w") as f:
-        f.write("\n".join(sorted(s for s in sums if s.strip())) + "\n")
+    body = "\n".join(sorted(s for s in sums if s.strip())) + "\n"
+    sumf = os.path.join(HARNESS, "go.sum")
+    if not os.path.exists(sumf) or open(sumf).read() != body:
+        with open(sumf + ".%d.tmp" % os.getpid(), "w") as f:
+            f.write(body)
+        os.replace(sumf + ".%d.tmp" % os.getpid(), sumf)
     outdir = os.path.join(WORK, "bin")
     os.makedirs(outdir, exist_ok=True)
     out = os.path.join(outdir, name + ("-race" if race else ""))
@@ -69,10 +73,13 @@ def build_harness(name="vh", tags="verif", race=False):
         cmd += ["-tags", tags]
     if race:
         cmd += ["-race"]
-    cmd += ["-o", out, "./cmd/" + name]
+    # build beside the target and rename: a check running in parallel keeps executing the binary it started with
+    tmp = "%s.%d.tmp" % (out, os.getpid())
+    cmd += ["-o", tmp, "./cmd/" + name]
     p = sh(cmd, cwd=HARNESS, timeout=900, check=False)
     if p.returncode != 0:
         raise Trouble("harness build failed against %s:\n%s" % (REPO, p.stdout[-6000:]))
+    os.replace(tmp, out)
     _built[key] = out
     return out
 
@@ -113,7 +120,9 @@ def tlc(spec, cfg, wdir, env=None, workers=8, timeout=600, heap="6g", extra=None
             shutil.copytree(SPEC, sdir)
     import uuid
     meta = os.path.join(wdir, "meta-%s-%s" % (os.path.basename(cfg), uuid.uuid4().hex[:12]))
-    jopts = ["-Xss512m", "-Xmx" + heap, "-XX:+UseParallelGC"]
+    jtmp = meta + ".tmp"            # TLC's own scratch (java.io.tmpdir) stays under work/ too, and is removed after the run
+    os.makedirs(jtmp, exist_ok=True)
+    jopts = ["-Xss512m", "-Xmx" + heap, "-XX:+UseParallelGC", "-Djava.io.tmpdir=" + jtmp]
     if depth_first:
         jopts.append("-Dtlc2.tool.queue.IStateQueue=StateDeque")
     cmd = ["java"] + jopts + ["-cp", TLAJAR, "tlc2.TLC", "-metadir", meta, "-workers", str(workers),
@@ -134,11 +143,13 @@ def tlc(spec, cfg, wdir, env=None, workers=8, timeout=600, heap="6g", extra=None
         p = subprocess.run(cmd, cwd=sdir, env=e, timeout=timeout, stdout=subprocess.PIPE,
                            stderr=subprocess.STDOUT, text=True)
     except subprocess.TimeoutExpired as ex:
-        subprocess.run("pkill -f 'tlc2.TL[C]' || true", shell=True)
+        shutil.rmtree(jtmp, ignore_errors=True)
         r.error = "timeout after %ss" % timeout
         r.out = (ex.stdout or b"").decode() if isinstance(ex.stdout, bytes) else (ex.stdout or "")
         r.wall = time.time() - t0
         return r
+    shutil.rmtree(jtmp, ignore_errors=True)
+    shutil.rmtree(meta, ignore_errors=True)
     r.out = p.stdout
     r.wall = time.time() - t0
     m = re.findall(r"(\d[\d,]*) states generated, (\d[\d,]*) distinct states found", p.stdout)
